@@ -68,6 +68,9 @@ FLAVOURS = {
              "-DCMAKE_CXX_FLAGS=-O1 -g -fsanitize=address,undefined -fno-sanitize-recover=undefined -fno-omit-frame-pointer",
              "-DCMAKE_C_FLAGS=-O1 -g -fsanitize=address,undefined",
              "-DCMAKE_EXE_LINKER_FLAGS=-fsanitize=address,undefined"],
+    # libstdc++ precondition checks (e.g. back() on an empty string aborts): turns
+    # some undefined behaviour into a deterministic abort of the real tool
+    "assert": ["-DCMAKE_BUILD_TYPE=Release", "-DCMAKE_CXX_FLAGS=-g1 -D_GLIBCXX_ASSERTIONS"],
     "tsan": ["-DCMAKE_BUILD_TYPE=RelWithDebInfo",
              "-DCMAKE_CXX_FLAGS=-O1 -g -fsanitize=thread",
              "-DCMAKE_EXE_LINKER_FLAGS=-fsanitize=thread"],
